@@ -954,12 +954,28 @@ func (c *Ctx) composerSkeletons(rule string, handlers map[string]*ssa.Function) 
 			continue
 		}
 		key := memberKey[strings.TrimPrefix(strings.TrimPrefix(a, "remove-"), "add-")]
-		var wbs []*ssa.MapUpdate
+		// the write: a map update of the document under the member's key, here or in a setter the handler calls with the
+		// document (`setMember(doc, key, list)`); its place in the handler is the update itself or that call
+		var wbs []ssa.Instruction
 		forEachInstr(h, func(in ssa.Instruction) {
-			if mu, ok := in.(*ssa.MapUpdate); ok && unquote(c.Path(mu.Key, nil)) == key {
-				if sliceHas(backSlice(mu.Map), isParam(h, 0)) {
-					wbs = append(wbs, mu)
+			switch x := in.(type) {
+			case *ssa.MapUpdate:
+				if unquote(c.Path(x.Key, nil)) == key && sliceHas(backSlice(x.Map), isParam(h, 0)) {
+					wbs = append(wbs, x)
 				}
+			case *ssa.Call:
+				g := x.Call.StaticCallee()
+				if g == nil || !inModule(g) || g.Blocks == nil || len(g.Blocks) != 1 {
+					return
+				}
+				genv := c.calleeEnv(&x.Call, g, nil)
+				forEachInstr(g, func(i2 ssa.Instruction) {
+					if mu, ok := i2.(*ssa.MapUpdate); ok && unquote(c.Path(mu.Key, genv)) == key {
+						if mp := c.Path(mu.Map, genv); mp == "$0" || strings.HasPrefix(mp, "$0.") {
+							wbs = append(wbs, x)
+						}
+					}
+				})
 			}
 		})
 		cut := map[edge]bool{}
